@@ -97,6 +97,24 @@ Definition mean_rows (d : dset) (c : Z) (tb : nat) : list (list rat) :=
 Definition mean_num (d : dset) (unw : bool) (c : Z) (tb : nat) : list (list Z) :=
   map (fun s => map (fun k => wnum d unw c s k) (chans_of d unw tb)) (seq 0 (n_samples_wf d)).
 
+(* ---------- the same waveforms with the per-template tables computed once (what Corr.v evaluates;
+   equal to mean_rows / wnum by Proofs3.mean_rows_f_eq) ---------- *)
+Record tables := mktab { tb_w : list Z; tb_ch : list (list Z); tb_tm : list (list (list Z)) }.
+Definition tables_of (d : dset) (unw : bool) (c : Z) : tables :=
+  let ts := seq 0 (length (d_tmpl d)) in
+  mktab (map (fun t => cnt d c (Z.of_nat t)) ts) (map (chans_of d unw) ts) (map (tmpl_of d unw) ts).
+Fixpoint wsum3 (ws : list Z) (chs : list (list Z)) (tms : list (list (list Z))) (s : nat) (k : Z) : Z :=
+  match ws, chs, tms with
+  | w :: ws', ch :: chs', tm :: tms' => w * (if memZ k ch then cell tm s k else 0) + wsum3 ws' chs' tms' s k
+  | _, _, _ => 0
+  end.
+Definition wnum_f (tb : tables) (s : nat) (k : Z) : Z := wsum3 (tb_w tb) (tb_ch tb) (tb_tm tb) s k.
+Definition mean_rows_f (d : dset) (c : Z) (tbl : tables) (tbchans : list Z) : list (list rat) :=
+  let den := zsum (tb_w tbl) in
+  map (fun s => map (fun k => if memZ k tbchans then mkrat (wnum_f tbl s k) den else rat_of 0)
+                    (zrange 0 (n_channels d)))
+      (seq 0 (n_samples_wf d)).
+
 (* ---------- well-formed data sets ---------- *)
 Definition WF (d : dset) : Prop :=
   length (d_st d) = length (d_sc d) /\
